@@ -22,6 +22,17 @@ def _mutate(name):
     import textwrap
     src_fn = cc.Compiler.visit_UseExternalMacro
     code = textwrap.dedent(inspect.getsource(src_fn))
+    if name == 'filler_uses_macro_target':
+        src_fn = cc.Compiler.visit_DefineSlot
+        code = textwrap.dedent(inspect.getsource(src_fn))
+        new = code.replace('"SLOT(__stream, econtext.copy(), rcontext)"', '"SLOT(__stream, econtext.copy(), rcontext, target_language=target_language)"')
+        if new == code:
+            new = code.replace('econtext.copy(), rcontext)', 'econtext.copy(), rcontext, target_language=target_language)')
+        assert new != code
+        ns = dict(src_fn.__globals__)
+        exec(new, ns)
+        cc.Compiler.visit_DefineSlot = ns['visit_DefineSlot']
+        return
     if name == 'no_global_merge':
         new = code.replace('template("econtext.update(rcontext)")', '[]')
     elif name == 'extend_drops_appendleft':
@@ -45,11 +56,14 @@ def _mutate(name):
 def prepare(cfg):
     if cfg.get('mutant'):
         _mutate(cfg['mutant'])
-    STATE['lib'] = PageTemplate(tprog.serialise(cfg['lib'])) if cfg.get('lib') else None
+    kw = {}
+    if cfg.get('i18n'):
+        kw['translate'] = revealing_translate
+    STATE['lib'] = PageTemplate(tprog.serialise(cfg['lib']), **kw) if cfg.get('lib') else None
     STATE['a_text'] = tprog.serialise(cfg['caller'])
     STATE['b_text'] = tprog.serialise(cfg['inlined'])
-    STATE['a'] = PageTemplate(STATE['a_text'])
-    STATE['b'] = PageTemplate(STATE['b_text'])
+    STATE['a'] = PageTemplate(STATE['a_text'], **kw)
+    STATE['b'] = PageTemplate(STATE['b_text'], **kw)
     for k in range(4):
         N[k] = 1
     for name, kind, slot in cfg.get('vars', []):
@@ -59,8 +73,20 @@ def prepare(cfg):
             N[slot] = 4
 
 
+def revealing_translate(msgid, domain=None, mapping=None, context=None, target_language=None, default=None):
+    """translation function whose return value exposes every argument it was given (so equal output means
+    equal calls, argument for argument)"""
+    text = default if default is not None else msgid
+    if mapping:
+        for k in sorted(mapping):
+            text = text.replace('${%s}' % k, '{%s}' % mapping[k])
+    return '[%s|%s|%s|%s:%s]' % (domain, context, target_language, msgid if isinstance(msgid, str) else '?', text)
+
+
 def bind(ints, bools):
     b = {}
+    if CFG.get('target_language') is not None:
+        b['target_language'] = CFG['target_language']
     for name, kind, slot in CFG.get('vars', []):
         if kind == 'bool':
             b[name] = bools[slot]
